@@ -88,9 +88,9 @@ macro "tidy_close" : tactic => `(tactic|
      natCast_succ_ne_wild, Gen.SemverTables.minPre, embedPre, *] <;> (try simp only [Value] at *) <;> omega))
 
 macro "good_npm_fin" : tactic => `(tactic| first
-  | exact goodOut_empty
-  | exact goodOut_err
-  | (refine goodOut_newSpan sys4_npm ⟨rfl, rfl⟩ ⟨rfl, rfl⟩ _ _ ?_ ?_ <;> tidy_close))
+  | with_reducible exact goodOut_empty
+  | with_reducible exact goodOut_err
+  | ((with_reducible refine goodOut_newSpan sys4_npm ?_ ?_ _ _ ?_ ?_) <;> first | exact ⟨rfl, rfl⟩ | tidy_close))
 
 macro "good_npm" : tactic => `(tactic| first
   | good_npm_fin
